@@ -74,3 +74,10 @@ PROPS['C16']['explanation'] += (' CONCURRENT: C16_conc_ids_unique -- for ALL sch
                                'the real stack (known findings [c16-txid-commit-order], [c16-logid-commit-order-nolock]). Log ids under the lock followed commit order on every explored schedule '
                                '(monitor [c16-logid-commit-order-sync] never fired); that all-schedules proof is not done.' + _sched_note)
 PROPS['C16']['trusted'] = PROPS['C16']['trusted'] + CONC_TRUST
+
+# C09, concurrent part: the same schedule exploration with HASH_LOGS=SYNC; the chain monitor (every stored hash chains from the
+# log with the next smaller id, by the trigger's rule) runs on the final logs of every explored schedule
+PROPS['C09']['ties'].append(sched_tie('C09', 'c16', 60, 3000))
+PROPS['C09']['explanation'] += (' CONCURRENT: the advisory-lock boundary is explored by the schedule harness (2-3 writers, all schedules with <= 2 deviations + random ones, HASH_LOGS=SYNC): '
+                               'on every explored schedule the stored chain is linear in id order (monitor [not-linear]/[not-chain-hash] on the raw logs); C09_linear_serialized is the lemma that '
+                               'turns "inserts serialized by the lock" into linearity.' + _sched_note)
